@@ -447,6 +447,58 @@ fn main() {
                "unicode_class_alphabet": UNICODE_CLASSES, "unicode_class_max_len": if args.thorough() { 4 } else { 3 }}),
     );
 
+    // 1b. every keyword of the lexer (read from lexer.rs on every run) followed by every short
+    // suffix over an alphabet with multi-byte / wide / non-ASCII-space characters: look-aheads past a
+    // keyword (`else if`, raw-string `r`) must stay on character boundaries
+    {
+        let repo = std::env::var("KOTO_REPO").unwrap_or_else(|_| "/repo".into());
+        let lexer_src = std::fs::read_to_string(format!("{repo}/crates/lexer/src/lexer.rs")).unwrap_or_default();
+        let mut keywords: Vec<String> = vec!["else".into(), "else if".into(), "r".into()];
+        for part in lexer_src.split("check_keyword!(\"").skip(1) {
+            if let Some(k) = part.split('"').next() {
+                if !k.is_empty() && k.chars().all(|c| c.is_ascii_lowercase() || c == '_') && !keywords.iter().any(|x| x == k) {
+                    keywords.push(k.to_string());
+                }
+            }
+        }
+        assert!(keywords.len() >= 20, "keyword table of lexer.rs not found (translator of the C09 harness)");
+        cx.rep.bump_by("keywords_read_from_lexer_rs", keywords.len() as u64);
+        const KW_SUFFIX: &[&str] = &[" ", "'", "é", "字", "x", "\n", "i", "f", "(", "\u{a0}", "😀"];
+        let kw_len = if args.thorough() { 4 } else { 3 };
+        for k in &keywords {
+            for pre in ["", " ", "x\n  "] {
+                for len in 0..=kw_len {
+                    enumerate(KW_SUFFIX, len, &format!("{pre}{k}"), &mut |s| cx.push(s));
+                }
+            }
+        }
+        cx.flush();
+    }
+
+    // 1c. raw strings with 0..3 hashes: contents enumerated over the characters that matter for the
+    // end-delimiter scan (both quotes, `#`, a letter, a multi-byte letter, a line break, a backslash),
+    // closed (or not) and followed by another token, so partial end delimiters and the columns after
+    // them are covered for every delimiter length
+    {
+        const RAW_CONTENT: &[&str] = &["'", "\"", "#", "a", "é", "\n", "\\"];
+        let raw_len = if args.thorough() { 5 } else { 4 };
+        for hashes in 0..=3usize {
+            for q in ["'", "\""] {
+                let open = format!("r{}{}", "#".repeat(hashes), q);
+                let close = format!("{}{}", q, "#".repeat(hashes));
+                for len in 0..=raw_len {
+                    enumerate(RAW_CONTENT, len, &open, &mut |body| {
+                        cx.push(format!("{body}{close} x"));
+                        if len == raw_len {
+                            cx.push(body);
+                        }
+                    });
+                }
+            }
+        }
+        cx.flush();
+    }
+
     // 2. repository sources (whole files and every line-prefix cut)
     let mut files = vec![];
     corpus_files(std::path::Path::new("/repo"), &mut files);
